@@ -119,6 +119,37 @@ func runC13Symlink(job *Job, res *Result) {
 				Signature: res.Scenario + "|extra-misplaced|link-extras"})
 		}
 	}
+	// an extra file whose destination is already taken by an OLDER file (a side file of an earlier run / of another
+	// task): what the command wrote is what is there afterwards
+	{
+		dir := filepath.Join(job.Base, "e", "extra-over-older", "cwd")
+		os.RemoveAll(filepath.Join(job.Base, "e", "extra-over-older"))
+		os.MkdirAll(filepath.Join(dir, "side"), 0777)
+		os.Chdir(dir)
+		vs.Cwd = dir
+		os.WriteFile("in.txt", []byte("IN\n"), 0644)
+		os.WriteFile("notes.txt", []byte("OLD\n"), 0644)
+		os.WriteFile("side/notes.txt", []byte("OLD\n"), 0644)
+		errLog.Reset()
+		s := vs.RunOnce(nil, func() {
+			wf := sp.NewWorkflowCustomLogFile("c13", 2, "/dev/null")
+			src := components.NewFileSource(wf, "src", "in.txt")
+			p := wf.NewProc("p", "cat {i:in} > {o:out} && echo NEW1 > notes.txt && mkdir -p side && echo NEW2 > side/notes.txt")
+			p.SetOut("out", "res.txt")
+			p.In("in").From(src.Out())
+			wf.Run()
+		}, nil)
+		n++
+		os.Chdir("/")
+		a, _ := os.ReadFile(filepath.Join(dir, "notes.txt"))
+		b, _ := os.ReadFile(filepath.Join(dir, "side/notes.txt"))
+		res.Samples = append(res.Samples, fmt.Sprintf("extra-over-older: outcome[%s] notes=%q side/notes=%q", s.Outcome, a, b))
+		if s.Outcome != "" || string(a) != "NEW1\n" || string(b) != "NEW2\n" {
+			res.Violations = append(res.Violations, Violation{Prop: job.Prop, Class: "extra-misplaced", Job: job.ID,
+				Detail:    fmt.Sprintf("extra files written over older files of the same name: notes.txt holds %q (command wrote NEW1), side/notes.txt holds %q (command wrote NEW2), outcome '%s'", a, b, s.Outcome),
+				Signature: res.Scenario + "|extra-misplaced|extra-over-older"})
+		}
+	}
 	os.RemoveAll(filepath.Join(job.Base, "e"))
 	res.Stats = vs.Stats{Mode: "enumeration", Execs: n, Transitions: n, Nodes: n, Closed: true}
 	res.NOutcomes = n
